@@ -64,6 +64,47 @@ static void check_tosbx(Inst& in, size_t which, ToSbx pos, uint64_t off, int idx
   else n_tosbx_ok++;
 }
 
+// function pointers: table representations <-> addresses, per instance
+static void fn_positions(Inst& in, size_t which)
+{
+  sbx& sb = *in.sb;
+  using fn_t = int* (*)(int*);
+  auto cell = Wd::tptr<fn_t>(sb, Inst::CELL);
+  const char* names[] = { "echo_ptr", "call_cb_ptr", "take_struct", "ret_struct", "deref" };
+  for (uint32_t k = 0; k < 5; k++) {
+    mon::ctx("fn-pointer/%s | instance %zu", names[k], which);
+    // to-application: the table index designates the k-th export of THIS instance's library
+    Wd::wr<P>(sb, Inst::CELL, static_cast<P>(S::EXPORT_TABLE_BASE + k));
+    tainted<fn_t, S> t = *cell;
+    void* want = lib1.exports.at(names[k]).internal_addr;
+    mon::evals(2);
+    if (reinterpret_cast<void*>(t.UNSAFE_unverified()) != want)
+      report("to-app", "load-function-pointer-cell", "wrong-address", mon::fmt("%s: table representation %u loaded as %p, export %s is %p", Cfg::name, S::EXPORT_TABLE_BASE + k, reinterpret_cast<void*>(t.UNSAFE_unverified()), names[k], want));
+    else n_toapp_ok++;
+    // to-sandbox: store it back (example path) and through the context path
+    Wd::wr<P>(sb, Inst::CELL, static_cast<P>(0x5a5a5a5a));
+    *cell = t;
+    uint64_t back = Wd::rd<P>(sb, Inst::CELL), ctxr = static_cast<uint64_t>(t.UNSAFE_sandboxed(sb));
+    if (back != S::EXPORT_TABLE_BASE + k || ctxr != S::EXPORT_TABLE_BASE + k)
+      report("to-sandbox", "store-function-pointer-cell", "wrong-representation", mon::fmt("%s: export %s stored as %llu / %llu, table representation is %u", Cfg::name, names[k], (unsigned long long)back, (unsigned long long)ctxr, S::EXPORT_TABLE_BASE + k));
+    else n_tosbx_ok++;
+  }
+  // callback trampoline and null
+  Wd::wr<P>(sb, Inst::CELL, static_cast<P>(0x5a5a5a5a));
+  *Wd::tptr<int* (*)(int*)>(sb, Inst::CELL) = in.cb;
+  uint64_t tr = Wd::rd<P>(sb, Inst::CELL);
+  if (tr != static_cast<uint64_t>(in.cb.UNSAFE_sandboxed(sb)) || !in.sb->get_sandbox_impl()->slot_live(tr)) report("to-sandbox", "store-callback-cell", "wrong-representation", mon::fmt("%llu", (unsigned long long)tr));
+  else n_tosbx_ok++;
+  Wd::wr<P>(sb, Inst::CELL, 0);
+  tainted<fn_t, S> nt = *cell;
+  if (nt.UNSAFE_unverified() != nullptr) report("to-app", "load-function-pointer-cell", "zero-not-null", "");
+  else n_null_ok++;
+  *cell = nullptr;
+  if (Wd::rd<P>(sb, Inst::CELL) != 0) report("to-sandbox", "store-function-pointer-cell", "null-not-zero", "");
+  else n_null_ok++;
+  mon::evals(4);
+}
+
 static std::vector<uint64_t> sample_offsets(Inst& in, mon::Rng& rng, int nrand)
 {
   std::vector<uint64_t> o = { 0, 1, 2, 3, 4, 7, 8, 15, 16, 255, 256, 4095, 4096, 4097, in.size / 2 - 1, in.size / 2, in.size / 2 + 1, in.size - 4097, in.size - 4096,
@@ -95,6 +136,7 @@ int main(int argc, char** argv)
     registry_orders++;
     for (size_t w = 0; w < live.size(); w++) {
       Inst& in = *live[w];
+      fn_positions(in, w);
       auto offs = sample_offsets(in, rng, mon::tier(40, 400));
       for (uint64_t off : offs) {
         int idx = rng.below(4);
